@@ -54,6 +54,13 @@ mutant("c08-backprop-first-half-not-transposed", "oqupy/gradient.py",
 # C08: pre/post control order in the back pass
 mutant("c08-chainrule-halfstep-swap", "oqupy/gradient.py",
        sub_once(r"total_derivs\[2\*i\]\[j\] = combine_derivs\(", "total_derivs[2*i if num_parameters < 3 else 2*i+1][j] = combine_derivs("))
+# C03: transform_out skipped for rank-3 (delta) tensors
+mutant("c03-rank3-skips-transform-out", "oqupy/process_tensor.py",
+       sub_once(r"        if self\._transform_out is not None:\n            tensor = np\.dot\(tensor, self\._transform_out\)\n        return tensor\n\n    def get_cap_tensor\(self, step: int\) -> ndarray:\n        \"\"\"\n        Get the cap tensor \(vector\) to terminate the PT-MPO at time step `step`\.\n        \"\"\"\n        length = len\(self\._cap_tensors\)",
+                "        if self._transform_out is not None \\\n                and len(self._mpo_tensors[step].shape) == 4:\n            tensor = np.dot(tensor, self._transform_out)\n        return tensor\n\n    def get_cap_tensor(self, step: int) -> ndarray:\n        \"\"\"\n        Get the cap tensor (vector) to terminate the PT-MPO at time step `step`.\n        \"\"\"\n        length = len(self._cap_tensors)"))
+# C08: second half-step derivative always taken with respect to the first parameter
+mutant("c08-second-half-wrong-parameter", "oqupy/gradient.py",
+       sub_once(r"second_half_prop_derivs\[j\]\.T\)", "second_half_prop_derivs[0].T)"))
 # C12: thermal guard threshold
 mutant("c12-thermal-guard", "oqupy/bath_correlations.py",
        sub_once(r"if np\.exp\(-w / self\.temperature\) > np\.finfo\(float\)\.eps:\n(\s+)inte = self\._spectral_density\(w\) / w \*\* 2",
